@@ -413,6 +413,116 @@ def _history(rng, maxf, nframes, den, model, floats=False, custom=None, variants
     return c
 
 
+def _textbook(case, exact):
+    """per frame, per feature (x, P, correction or None) of the textbook filter, in exact Fractions or in float64
+    (an evaluation independent of the implementation: used only to exclude ill-conditioned inputs)"""
+    om, tm = _case_mats(case)
+    conv = (lambda v: Fr(v)) if exact else float
+    H = np.array([[conv(v) for v in r] for r in om], object if exact else float)
+    A = np.array([[conv(v) for v in r] for r in tm], object if exact else float)
+    ol, sl = H.shape
+
+    def inv(S):
+        if not exact:
+            return np.linalg.inv(S)
+        n = len(S)
+        M = [[S[i][j] for j in range(n)] + [Fr(int(i == j)) for j in range(n)] for i in range(n)]
+        for c in range(n):
+            piv = next(r for r in range(c, n) if M[r][c] != 0)
+            M[c], M[piv] = M[piv], M[c]
+            pv = M[c][c]
+            M[c] = [v / pv for v in M[c]]
+            for r in range(n):
+                if r != c and M[r][c] != 0:
+                    f = M[r][c]
+                    M[r] = [a - f * b for a, b in zip(M[r], M[c])]
+        return np.array([row[n:] for row in M], object)
+
+    rowsum = H.T.dot(np.array([conv(1)] * ol, object if exact else float))
+    prev, out = [], []
+    for f in case["frames"]:
+        cur = []
+        for k, o in enumerate(f["old"]):
+            z = np.array([conv(v) for v in f["coords"][k]], object if exact else float)
+            if o == -1:
+                cov = [(conv(1) / rs if rs != 0 else conv(2000)) for rs in rowsum]
+                P = np.array([[cov[i] if i == j else conv(0) for j in range(sl)] for i in range(sl)], object if exact else float)
+                cur.append((H.T.dot(z), P, None))
+                continue
+            x, P, _c = prev[o]
+            q = np.array([[conv(v) for v in r] for r in f["q"][k]], object if exact else float)
+            r_ = np.array([[conv(v) for v in r] for r in f["r"][k]], object if exact else float)
+            xp = A.dot(x)
+            Pp = A.dot(P).dot(A.T) + q
+            S = H.dot(Pp).dot(H.T) + r_
+            K = Pp.dot(H.T).dot(inv(S))
+            c = K.dot(z - H.dot(xp))
+            cur.append((xp + c, Pp - K.dot(H).dot(Pp), c))
+        out.append(cur)
+        prev = cur
+    return out
+
+
+def _float_ok(case, margin=1e-11):
+    """a float64 evaluation of the textbook filter reproduces the exact one to [margin] relative to each feature's
+    own arrays: otherwise the input is ill-conditioned for ANY float implementation and is excluded (counted)"""
+    try:
+        ex, fl = _textbook(case, True), _textbook(case, False)
+    except (StopIteration, ZeroDivisionError, np.linalg.LinAlgError):
+        return False
+    for fe, ff, f in zip(ex, fl, case["frames"]):
+        for k, ((xe, Pe, ce), (xf, Pf, cf)) in enumerate(zip(fe, ff)):
+            zs = max([abs(v) for v in f["coords"][k]] + [0.0])
+            for e, g, floor in ((xe, xf, zs), (Pe, Pf, 0.0), (ce, cf, zs)):
+                if e is None:
+                    continue
+                e = np.array([float(v) for v in np.ravel(e)])
+                g = np.array(np.ravel(g), float)
+                scale = np.max(np.abs(e)) if e.size and np.max(np.abs(e)) > 0 else floor
+                if not np.all(np.isfinite(g)) or np.any(np.abs(e - g) > margin * scale):
+                    return False
+    return True
+
+
+def _rescale(rng, case):
+    """give every track its own magnitude: q and r of each feature of each frame are multiplied by independent
+    powers of two between 2^-40 and 2^+30 (exact in float64), chosen per TRACK with occasional jumps, so one frame
+    mixes features whose innovation covariances differ by up to ~2^140 in determinant; r is kept above 2^-13 times
+    the predicted variance (below that the covariance update cancels catastrophically in any float filter)"""
+    om, tm = _case_mats(case)
+    H, A = np.array(om, float), np.array(tm, float)
+    ol, sl = H.shape
+    rowsum = H.T.dot(np.ones(ol))
+    P0 = np.diag([1.0 / v if v != 0 else 2000.0 for v in rowsum])
+    tracks = []                          # per current feature: [P (float), e_q, e_r]
+    for f in case["frames"]:
+        cur = []
+        for k, o in enumerate(f["old"]):
+            if o == -1:
+                cur.append([P0.copy(), int(rng.choice([-40, -30, -20, -10, 0, 0, 10, 20, 30])),
+                            int(rng.choice([-40, -30, -20, -10, 0, 0, 10, 20, 30]))])
+                continue
+            P, eq, er = tracks[o]
+            if rng.rand() < 0.25:
+                eq = int(rng.randint(-40, 31))
+            if rng.rand() < 0.25:
+                er = int(rng.randint(-40, 31))
+            q = np.array(f["q"][k], float) * 2.0 ** eq
+            Pp = A.dot(P).dot(A.T) + q
+            need = int(np.ceil(np.log2(np.max(np.abs(H.dot(Pp).dot(H.T)))))) - 13
+            er_eff = max(er, need)
+            r_ = np.array(f["r"][k], float) * 2.0 ** er_eff
+            f["q"][k] = q.tolist()
+            f["r"][k] = r_.tolist()
+            S = H.dot(Pp).dot(H.T) + r_
+            K = Pp.dot(H.T).dot(np.linalg.inv(S))
+            cur.append([Pp - K.dot(H).dot(Pp), eq, er])
+        f["kind"] = f["kind"] + "+scaled"
+        tracks = cur
+    case["scaled"] = True
+    return case
+
+
 def _cond_ok(case):
     for f in case["frames"]:
         seen = []
@@ -433,7 +543,7 @@ def _multi(rng, subs, nforks):
     forks = {}
     for _ in range(nforks):
         p = int(rng.randint(len(subs)))
-        if str(p) in forks or len(subs[p]["frames"]) < 2:
+        if str(p) in forks or len(subs[p]["frames"]) < 2 or subs[p].get("scaled"):
             continue
         t = int(rng.randint(1, len(subs[p]["frames"])))          # share frames[:t] with the parent
         nold = len(subs[p]["frames"][t - 1]["old"])
@@ -497,6 +607,23 @@ def _alg_cases(rng, k):
         cases.append({"fn": "alg", "op": 4, "a": mats, "b": []})
         if m >= 2:
             cases.append({"fn": "alg", "op": 7, "a": mats, "b": [int(rng.randint(m)), int(rng.randint(m))]})
+        # the same batched operations on matrices of wildly different magnitude inside ONE batch (powers of two:
+        # exact); determinants differ by up to 2^(50 m) >= 2^100 for m >= 2
+        nb = int(rng.randint(2, 6))
+        exps = [int(e) for e in rng.randint(-25, 26, size=nb)]
+        if rng.rand() < 0.5:
+            exps[0], exps[-1] = -25, 25
+        smats = []
+        while len(smats) < nb:
+            x = rng.randint(-12, 13, size=(m, m)) / 4.0
+            if abs(np.linalg.det(x)) >= 0.125:
+                smats.append((x * 2.0 ** exps[len(smats)]).tolist())
+        cases.append({"fn": "alg", "op": 3, "a": smats, "b": [], "scaled": True})
+        cases.append({"fn": "alg", "op": 4, "a": smats, "b": [], "scaled": True})
+        if m >= 2:
+            cases.append({"fn": "alg", "op": 7, "a": smats, "b": [int(rng.randint(m)), int(rng.randint(m))], "scaled": True})
+        ys = [(rng.randint(-16, 17, size=(m, j)) / 4.0 * 2.0 ** int(rng.randint(-25, 26))).tolist() for _ in range(nb)]
+        cases.append({"fn": "alg", "op": 2, "a": smats, "b": ys, "scaled": True})
     return cases
 
 
@@ -538,6 +665,29 @@ def _corpus():
                 for f in frames:
                     f["q"] = [np.array(m)[:2, :2].tolist() for m in f["q"]]
             cases.append({"fn": "kalman", "model": model, "frames": frames})
+    # mixed magnitudes in ONE frame: a precisely localised long-tracked feature (q, r shrinking to * 2^-24), an ordinary one whose r
+    # jumps to * 2^26, and a feature that receives its FIRST update (innovation covariance ~ LARGE) in the last frame
+    for model in MODELS:
+        sl = 2 if model == "static" else 4
+        h = [[-1, -1], [0, 1], [1, 0], [1, 0, -1], [2, 1, 0]]
+        frames = [fr(old, 900 + t) for t, old in enumerate(h)]
+        ident = [[0], [0]]                       # track identity per slot: 0 = tiny, 1 = ordinary
+        slots = [0, 1]
+        for t, f in enumerate(frames):
+            if t > 0:
+                slots = [(slots[o] if o != -1 else 2) for o in f["old"]]
+            if sl == 2:
+                f["q"] = [np.array(m)[:2, :2].tolist() for m in f["q"]]
+            for k, tr in enumerate(slots if t > 0 else [0, 1]):
+                if f["old"][k] == -1:
+                    continue
+                e = [0, 0, -8, -16, -24][t] if tr == 0 else (26 if (tr == 1 and t == len(frames) - 1) else 0)
+                f["q"][k] = (np.array(f["q"][k]) * 2.0 ** (e if tr == 0 else 0)).tolist()
+                f["r"][k] = (np.array(f["r"][k]) * 2.0 ** e).tolist()
+            f["kind"] = "corpus+scaled"
+        c = {"fn": "kalman", "model": model, "frames": frames, "scaled": True}
+        if _float_ok(c):
+            cases.append(c)
     return cases
 
 
@@ -582,6 +732,8 @@ def _count(ctx, c):
             if "variant" in f:
                 for k, v in f["variant"].items():
                     ctx.count("arg_%s_%s" % (k, v))
+        if c.get("scaled"):
+            ctx.count("scaled_histories")
         ctx.count("frames_total", len(c["frames"]))
         ctx.count("max_features_%s" % ("<10" if max([len(f["old"]) for f in c["frames"]] + [0]) < 10 else
                                        "<100" if max(len(f["old"]) for f in c["frames"]) < 100 else ">=100"))
@@ -591,7 +743,7 @@ def _count(ctx, c):
         for s in c["subs"]:
             _count(ctx, s)
     else:
-        ctx.count("alg_op%d" % c["op"])
+        ctx.count("alg_op%d%s" % (c["op"], "_scaled_batch" if c.get("scaled") else ""))
 
 
 def generate(ctx):
@@ -618,6 +770,19 @@ def generate(ctx):
         if not _cond_ok(c):
             ctx.count("excluded_ill_conditioned")
             continue
+        if not floats and rng.rand() < 0.22 and max(len(f["old"]) for f in c["frames"]) <= 4:
+            c["frames"] = c["frames"][:5]
+            # independent magnitudes per feature inside one frame
+            for f in c["frames"]:
+                f["q"] = [[list(r) for r in m] for m in f["q"]]          # unshare
+                f["r"] = [[list(r) for r in m] for m in f["r"]]
+                if "variant" in f:
+                    f["variant"]["q"] = "f64" if f["variant"]["q"] in ("bcast", "f32", "int") else f["variant"]["q"]
+                    f["variant"]["r"] = "f64" if f["variant"]["r"] in ("bcast", "f32", "int") else f["variant"]["r"]
+            c = _rescale(rng, c)
+            if not _float_ok(c):
+                ctx.count("excluded_ill_conditioned_scaled")
+                continue
         hist.append(c)
     # a fifth of the histories run interleaved in one process, some continuing from a shared state object
     nm = len(hist) // 5
@@ -860,7 +1025,14 @@ def _cost(arg):
     for f in arg[2]:
         ages = [(ages[o] + 1 if 0 <= o < len(ages) else 0) for o in f[0]]
         cost += sum((a + 1) ** 4 for a in ages) * sl ** 3
-    return cost
+    # magnitudes spread over many binary orders (per-feature scales) make every rational longer
+    bits = 4
+    for f in arg[2][:3]:
+        for m in (f[2][:4] + f[3][:4]):
+            for row in m:
+                for nd in row:
+                    bits = max(bits, abs(nd[0]).bit_length(), nd[1].bit_length())
+    return cost * (1 + bits / 12.0) ** 2
 
 
 def _par(ctx, entry, args, workers=None):
@@ -960,21 +1132,27 @@ def _alg_arg(case):
 
 
 def _close(x, q, scale):
-    """float x against exact rational q"""
+    """float x against exact rational q, relative to [scale] (no absolute floor)"""
     x = float(x)
     if x != x or x in (float("inf"), float("-inf")):
         return False
-    return abs(x - float(q)) <= TOL * max(1.0, scale)
+    return abs(x - float(q)) <= TOL * scale
 
 
-def _cmp_arr(x, m):
-    """nested float lists x against nested [num, den] lists m (same shape) at tolerance relative to the
-    largest model entry; None or a text"""
-    def flat_m(m):
-        if len(m) == 2 and isinstance(m[0], int):
-            return [_unq(m)]
-        return [y for e in m for y in flat_m(e)]
+def _flat_m(m):
+    if len(m) == 2 and isinstance(m[0], int):
+        return [_unq(m)]
+    return [y for e in m for y in _flat_m(e)]
 
+
+def _maxabs_m(m):
+    return max([abs(float(v)) for v in _flat_m(m)] + [0.0]) if m else 0.0
+
+
+def _cmp_arr(x, m, floor=0.0, minscale=0.0):
+    """nested float lists x against nested [num, den] lists m (same shape): every entry within TOL relative to
+    the largest entry of THIS model array (one feature's vector / matrix), whatever its magnitude; [floor] is the
+    scale used only when the model array is identically zero.  None or a text"""
     def shape_ok(x, m):
         if isinstance(x, list):
             return (not (len(m) == 2 and m and isinstance(m[0], int))) and len(x) == len(m) and all(
@@ -983,13 +1161,20 @@ def _cmp_arr(x, m):
 
     if not shape_ok(x, m):
         return "shape differs"
-    fm = flat_m(m) if m else []
+    fm = _flat_m(m) if m else []
     fx = np.array(x, float).ravel().tolist()
-    scale = max([abs(float(v)) for v in fm] + [1.0])
+    scale = max([abs(float(v)) for v in fm] + [0.0, minscale])
+    if scale == 0.0:
+        scale = floor
     for k, (a, b) in enumerate(zip(fx, fm)):
         if not _close(a, b, scale):
-            return "entry %d: impl %r model %r" % (k, a, float(b))
+            return "entry %d: impl %r model %r (scale %.3g)" % (k, a, float(b), scale)
     return None
+
+
+def _vfloors(frame):
+    """per feature: the magnitude of its observation in this frame (fallback scale for vectors that are exactly 0)"""
+    return [max([abs(float(v)) for v in z] + [0.0]) for z in frame["coords"]]
 
 
 # ------------------------------------------------------------------------------- model, compare
@@ -1047,8 +1232,14 @@ def _cmp_alg(case, out, m):
         return None if v == m else "permutations differ: impl %s model %s" % (str(v)[:120], str(m)[:120])
     if op in (0, 1, 2) and v == [] and m == []:
         return None
-    d = _cmp_arr(v, m)
-    return None if d is None else "alg op %d: %s" % (op, d)
+    # every matrix (determinant, cofactor) of the batch against the model at ITS OWN scale
+    if not isinstance(v, list) or len(v) != len(m):
+        return "alg op %d: batch length differs" % op
+    for k, (a, b) in enumerate(zip(v, m)):
+        d = _cmp_arr(a, b)
+        if d:
+            return "alg op %d: matrix %d of the batch: %s" % (op, k, d)
+    return None
 
 
 def compare(case, out, m):
@@ -1080,13 +1271,20 @@ def _compare_kalman(case, out, m):
         if len(fo["svec"]) != len(msv) or len(fo["scov"]) != len(msc) or (mnv is not None and len(fo["nvar"]) != len(mnv)) \
                 or len(fo["snoise"]) != len(msn) or len(fo["psv"]) != len(m["psv"][t]) or len(fo["pov"]) != len(m["pov"][t]):
             return "frame %d: array lengths differ" % t
+        vf = _vfloors(case["frames"][t])
         for name, x, mm in (("state_vec", fo["svec"], msv), ("state_cov", fo["scov"], msc),
                             ("noise_var", fo["nvar"], mnv), ("state_noise", fo["snoise"], msn),
                             ("predicted_state_vec", fo["psv"], m["psv"][t]), ("predicted_obs_vec", fo["pov"], m["pov"][t])):
             if mm is None:
                 continue            # long tracks: noise_var is checked against the implementation's own rows
             for k, (a, b) in enumerate(zip(x, mm)):
-                d = _cmp_arr(a, b)
+                if name == "state_noise":
+                    fl = vf[msi[k]] if msi[k] < len(vf) else 0.0
+                elif name == "noise_var":
+                    fl = max([_maxabs_m(r) for i, r in zip(msi, msn) if i == k] + [0.0]) ** 2
+                else:
+                    fl = vf[k] if k < len(vf) else 0.0
+                d = _cmp_arr(a, b, fl, 1e-4 * fl if name == "noise_var" else 0.0)
                 if d:
                     return "frame %d: %s[%d] %s" % (t, name, k, d)
     return None
@@ -1126,12 +1324,9 @@ def _check_kalman(case, out, spec):
             return "frame %d: output shapes %s for %d features" % (t, fo["shapes"], n)
         if len(st) != n:
             return "frame %d: harness error, specification has %d features" % (t, len(st))
+        vfl = _vfloors(f)
         if fo["pred_cached"] != [True, True] or len(fo["psv"]) != n or len(fo["pov"]) != n:
             return "frame %d: predicted_state_vec / predicted_obs_vec not available per feature" % t
-        for k in range(n):
-            d = _cmp_arr(fo["psv"][k], spec["psv"][t][k]) or _cmp_arr(fo["pov"][k], spec["pov"][t][k])
-            if d:
-                return "frame %d feature %d: predicted state/observation is not A x / H A x of its own state: %s" % (t, k, d)
         if any(not (0 <= i < n) for i in fo["sidx"]):
             return "frame %d: state_noise_idx out of range" % t
         hist = [[row for i, row in zip(fo["sidx"], fo["snoise"]) if i == k] for k in range(n)]
@@ -1150,7 +1345,7 @@ def _check_kalman(case, out, spec):
                 if hist[k]:
                     return "frame %d feature %d (%s): inherits %d corrections of another feature" % (t, k, what, len(hist[k]))
                 continue
-            d = _cmp_arr(fo["svec"][k], sx_x)
+            d = _cmp_arr(fo["svec"][k], sx_x, vfl[k])
             if d:
                 return "frame %d feature %d (%s): state vector is not the textbook update of its own state: %s" % (t, k, what, d)
             d = _cmp_arr(fo["scov"][k], sx_P)
@@ -1161,10 +1356,13 @@ def _check_kalman(case, out, spec):
                     t, k, what, len(hist[k]), len(sx_h))
             if hist[k][:-1] != prev_hist[o]:
                 return "frame %d feature %d (%s): carried history is not its own previous history" % (t, k, what)
-            d = _cmp_arr(hist[k], sx_h)
+            d = None
+            for ri, (ra, rb) in enumerate(zip(hist[k], sx_h)):
+                d = d or _cmp_arr(ra, rb, vfl[k])
             if d:
                 return "frame %d feature %d (%s): correction history differs from its own corrections: %s" % (t, k, what, d)
-            d = _cmp_arr(fo["nvar"][k], sx_nv) if sx_nv is not None else None
+            rs2 = max([_maxabs_m(rb) for rb in sx_h] + [0.0]) ** 2
+            d = _cmp_arr(fo["nvar"][k], sx_nv, rs2, 1e-4 * rs2) if sx_nv is not None else None
             if d:
                 return "frame %d feature %d (%s): noise variance is not the variance of its own corrections: %s" % (t, k, what, d)
             # and directly on the implementation's own rows
@@ -1173,9 +1371,13 @@ def _check_kalman(case, out, spec):
                 col = [row[i] for row in rows]
                 mean = sum(col) / len(col)
                 var = sum((v - mean) ** 2 for v in col) / len(col)
-                if not _close(fo["nvar"][k][i], var, max(abs(float(v)) for v in col) ** 2):
+                if not _close(fo["nvar"][k][i], var, max(max(abs(float(v)) for v in col) ** 2, 1e-300)):
                     return "frame %d feature %d (%s): noise_var[%d]=%r but the variance of its own rows is %r" % (
                         t, k, what, i, fo["nvar"][k][i], float(var))
+        for k in range(n):
+            d = _cmp_arr(fo["psv"][k], spec["psv"][t][k], vfl[k]) or _cmp_arr(fo["pov"][k], spec["pov"][t][k], vfl[k])
+            if d:
+                return "frame %d feature %d: predicted state/observation is not A x / H A x of its own state: %s" % (t, k, d)
         prev_hist = hist
     return None
 
